@@ -9,6 +9,7 @@ package main
 //      and validated by [accepts].
 
 import (
+	"bytes"
 	"context"
 	"encoding/binary"
 	"encoding/json"
@@ -73,6 +74,46 @@ func (c08NoEndpoints) QueryServant(ctx context.Context, id string) ([]tarsreg.En
 }
 func (c08NoEndpoints) QueryServantBySet(ctx context.Context, id, set string) ([]tarsreg.Endpoint, []tarsreg.Endpoint, error) {
 	return nil, nil, nil
+}
+
+// a registrar whose answer per object the scenario scripts (and changes while calls are outstanding)
+type c08ScriptedRegistrar struct {
+	mu  sync.Mutex
+	eps map[string][]tarsreg.Endpoint
+}
+
+func (r *c08ScriptedRegistrar) set(obj string, port int) {
+	r.mu.Lock()
+	r.eps[obj] = []tarsreg.Endpoint{{Host: "127.0.0.1", Port: int32(port), Timeout: 60000, Istcp: 1}}
+	r.mu.Unlock()
+}
+func (r *c08ScriptedRegistrar) Registry(ctx context.Context, servant *tarsreg.ServantInstance) error {
+	return nil
+}
+func (r *c08ScriptedRegistrar) Deregister(ctx context.Context, servant *tarsreg.ServantInstance) error {
+	return nil
+}
+func (r *c08ScriptedRegistrar) QueryServant(ctx context.Context, id string) ([]tarsreg.Endpoint, []tarsreg.Endpoint, error) {
+	r.mu.Lock()
+	defer r.mu.Unlock()
+	return append([]tarsreg.Endpoint(nil), r.eps[id]...), nil, nil
+}
+func (r *c08ScriptedRegistrar) QueryServantBySet(ctx context.Context, id, set string) ([]tarsreg.Endpoint, []tarsreg.Endpoint, error) {
+	return r.QueryServant(ctx, id)
+}
+
+var (
+	c08RegOnce sync.Once
+	c08Reg     = &c08ScriptedRegistrar{eps: map[string][]tarsreg.Endpoint{}}
+	c08RegComm *tars.Communicator
+)
+
+// c08RegistryProxy creates a proxy whose endpoints come from the scripted registrar (initially the given port).
+func c08RegistryProxy(obj string, port int) *tars.ServantProxy {
+	c08Communicator()
+	c08RegOnce.Do(func() { c08RegComm = tars.NewCommunicator(tars.Registrar(c08Reg)) })
+	c08Reg.set(obj, port)
+	return tars.NewServantProxy(c08RegComm, obj)
 }
 
 var (
@@ -182,6 +223,8 @@ type c08Case struct {
 	Class     string   `json:"class"`
 	Skipped   bool     `json:"skipped,omitempty"` // not run (an earlier genRequestID case hung)
 	Push       bool   `json:"push,omitempty"`        // trace: proxy 0 has a push callback; id-0 packets on its connections must reach it
+	Registry   bool   `json:"registry,omitempty"`    // trace: the proxies resolve their endpoint through a scripted registrar; CloseAt then means: the registrar lists another endpoint (second listener of the same peer) and the proxies refresh
+	CloseAt    int    `json:"close_at,omitempty"`    // trace: 1+round in which every adapter of the scenario's proxies is closed while that round's calls are outstanding (0 = never)
 	Opts       bool   `json:"opts,omitempty"`        // trace: callers carry per-call options through the context (client timeout - the same value for all of them -, hash, dyeing key) and status / context maps
 	C0         int32  `json:"c0"`                    // trace, observed: the id counter when the scenario started (after positioning)
 	QueueMax   int    `json:"queue_max,omitempty"`   // trace: ObjQueueMax during the scenario (0 = default 100000): callers beyond it are rejected with 'invoke queue is full'
@@ -328,6 +371,7 @@ func c08InstallFilters(mode string) {
 	c08Communicator() // registers the logging pre client filter
 	pass := func(ctx context.Context, msg *tars.Message, invoke tars.Invoke, timeout time.Duration) error { return nil }
 	switch mode {
+	case "plain": // no filter beyond the logging pre client filter: a child only because the scenario may kill the process
 	case "prepost":
 		tars.RegisterPreClientFilter(pass)
 		tars.RegisterPostClientFilter(pass)
@@ -423,9 +467,22 @@ func c08RunTrace(c *c08Case) []Failure {
 	}
 	log := &c08Log{}
 	var sps []*tars.ServantProxy
+	var objs []string
+	var ln2 net.Listener
+	if c.Registry {
+		if ln2, err = net.Listen("tcp", "127.0.0.1:0"); err != nil {
+			fatal("listen: %v", err)
+		}
+		defer ln2.Close()
+	}
 	for i := 0; i < nprox; i++ {
 		obj := c08NextObj("C08")
-		sps = append(sps, c08Proxy(obj, port))
+		objs = append(objs, obj)
+		if c.Registry {
+			sps = append(sps, c08RegistryProxy(obj, port))
+		} else {
+			sps = append(sps, c08Proxy(obj, port))
+		}
 		c08SetHook(obj, func(req *requestf.RequestPacket) {
 			b := tools.Int8ToByte(req.SBuffer)
 			if len(b) == 8 {
@@ -512,7 +569,7 @@ func c08RunTrace(c *c08Case) []Failure {
 	var wmu sync.Mutex
 	var conns []net.Conn
 	var cmu sync.Mutex
-	go func() {
+	serve := func(ln net.Listener) {
 		for {
 			conn, err := ln.Accept()
 			if err != nil {
@@ -552,7 +609,11 @@ func c08RunTrace(c *c08Case) []Failure {
 				}
 			}(conn)
 		}
-	}()
+	}
+	go serve(ln)
+	if ln2 != nil {
+		go serve(ln2)
+	}
 	defer func() {
 		cmu.Lock()
 		for _, cn := range conns {
@@ -610,11 +671,14 @@ func c08RunTrace(c *c08Case) []Failure {
 	var doneList []int // callers known to have returned
 	patient := func(k int) bool {
 		switch c.Acts[k] {
-		case "none", "late", "ow", "fail", "noep", "cancel", "cancelD":
+		case "none", "late", "ow", "fail", "noep", "cancel", "cancelD", "closed":
 			return false
 		}
 		return true
 	}
+	var bodyMu sync.Mutex
+	gotBody := map[int][]byte{}  // callers that came back with more than the 8-byte payload: the whole body
+	sentBody := map[int][]byte{} // act split: the body the peer sent
 	var cancelMu sync.Mutex
 	cancels := map[int]context.CancelFunc{}
 	cancelOf := func(k int) {
@@ -700,8 +764,13 @@ func c08RunTrace(c *c08Case) []Failure {
 				switch {
 				case c.Acts[k] == "ow":
 					o.owBody = err == nil && len(b) != 0
-				case err == nil && len(b) == 8:
+				case err == nil && len(b) >= 8:
 					o = outc{got: true, pay: binary.BigEndian.Uint64(b)}
+					if len(b) > 8 {
+						bodyMu.Lock()
+						gotBody[k] = append([]byte(nil), b...)
+						bodyMu.Unlock()
+					}
 				case err == nil:
 					o = outc{got: true, pay: uint64(c08Poison)<<32 | 0xBAD, noBody: true}
 				}
@@ -819,7 +888,19 @@ func c08RunTrace(c *c08Case) []Failure {
 				time.Sleep(10 * time.Millisecond)
 			}
 		}
-		for _, k := range c.Order {
+		if c.CloseAt == round+1 { // every adapter is closed under the feet of the round's outstanding calls
+			for i, sp := range sps {
+				if c.Registry { // the registry now lists another endpoint; the refresh closes the adapter of the dropped one
+					c08Reg.set(objs[i], ln2.Addr().(*net.TCPAddr).Port)
+					if err := tars.VerifC08Refresh(sp); err != nil {
+						fs = append(fs, Failure{Sig: "registry/refresh-failed", Desc: fmt.Sprintf("registry refresh of the proxy failed: %v", err)})
+					}
+				} else {
+					tars.VerifC08CloseAdapters(sp)
+				}
+			}
+		}
+		for oi, k := range c.Order {
 			if k < lo || k >= hi {
 				continue
 			}
@@ -897,6 +978,38 @@ func c08RunTrace(c *c08Case) []Failure {
 				genuine()
 			case "ow": // a one-way request is never answered; a peer that echoes it anyway (same id, poisoned payload) must reach nobody
 				send(s.conn, s.id, c08Payload(c08Poison, uint32(k)), false)
+			case "closed": // its adapter has been closed while it waits: nothing will come
+			case "split":
+				// the reply leaves in two pieces with a silent gap longer than the client's read timeout (100 ms); its payload
+				// (own 8 bytes first) embeds a well-formed response frame, poisoned, for a call that is still waiting on this
+				// connection (another one if there is one, else this one), and the second piece starts with that frame
+				victim := s.id
+				for _, kk := range c.Order[oi+1:] {
+					if v, ok := reqs[kk]; ok && kk >= lo && kk < hi && patient(kk) && v.conn == s.conn {
+						if _, done := replied[kk]; !done {
+							victim = v.id
+							break
+						}
+					}
+				}
+				emb := c08EncodeResponse(victim, basef.TARSNORMAL, c08Payload(c08Poison, uint32(k)))
+				body := append(c08Payload(uint32(k), 0), emb...)
+				pkt := c08EncodeResponse(s.id, basef.TARSNORMAL, body)
+				off := bytes.Index(pkt, emb)
+				if off <= 0 {
+					off = len(pkt) / 2
+				}
+				replied[k] = time.Now()
+				sentBody[k] = body
+				ci := connIdx(s.conn)
+				wmu.Lock()
+				log.add(c08Ev{Kind: "pkt", ID: s.id, Pay: binary.BigEndian.Uint64(body), Conn: ci})
+				s.conn.SetWriteDeadline(time.Now().Add(5 * time.Second))
+				s.conn.Write(pkt[:off])
+				time.Sleep(170 * time.Millisecond)
+				s.conn.SetWriteDeadline(time.Now().Add(5 * time.Second))
+				s.conn.Write(pkt[off:])
+				wmu.Unlock()
 			case "fail", "noep": // never arrives
 			case "fcross": // this call's id, poisoned payload, on another connection of the process (if there is one)
 				cmu.Lock()
@@ -1088,6 +1201,9 @@ func c08RunTrace(c *c08Case) []Failure {
 		if o.noBody {
 			fs = append(fs, Failure{Sig: "call/success-without-a-reply", Desc: fmt.Sprintf("caller %d (act %s, filters %q): TarsInvoke returned a nil error for a two-way call but the ResponsePacket carries no reply (neither its own response nor an error)", k, c.Acts[k], c.Filters)})
 			continue
+		}
+		if want, ok := sentBody[k]; ok && o.got && !bytes.Equal(gotBody[k], want) {
+			fs = append(fs, Failure{Sig: "call/reply-body-altered", Desc: fmt.Sprintf("caller %d (act split): the peer sent a %d-byte payload in two pieces, the caller came back with %d bytes that differ from it", k, len(want), len(gotBody[k]))})
 		}
 		if o.owBody {
 			fs = append(fs, Failure{Sig: "call/one-way-call-received-a-payload", Desc: fmt.Sprintf("caller %d made a one-way call and came back with a payload", k)})
@@ -1768,6 +1884,64 @@ func c08Gen(tier string, rng *rand.Rand) []c08Case {
 		c.Class = fmt.Sprintf("trace-dupchain/n%d/p%d/g%d", n, c.Proxies, c.Procs)
 		cs = append(cs, c)
 	}
+	// replies in two pieces with a gap longer than the client's read timeout, embedding frames for calls still waiting
+	nsp := 2
+	if tier == "thorough" {
+		nsp = 8
+	}
+	for i := 0; i < nsp; i++ {
+		n := []int{4, 8, 2, 16, 1, 6}[i%6]
+		c := c08Case{Kind: "trace", N: n, Rounds: 1 + i%2, Proxies: 1, TimeoutMs: 200, Follow: true}
+		sk := []string{"split", "reply", "reply", "dup", "split", "reply", "none"}
+		for k := 0; k < n*c.Rounds; k++ {
+			a := sk[rng.Intn(len(sk))]
+			if k%n == 0 {
+				a = "split"
+			}
+			c.Acts = append(c.Acts, a)
+		}
+		for r := 0; r < c.Rounds; r++ {
+			perm := rng.Perm(n)
+			for j, k := range perm { // a split caller first, so that others are still waiting behind it
+				if c.Acts[r*n+k] == "split" {
+					perm[0], perm[j] = perm[j], perm[0]
+					break
+				}
+			}
+			for _, k := range perm {
+				c.Order = append(c.Order, r*n+k)
+			}
+		}
+		c.Class = fmt.Sprintf("trace-split/n%d/r%d", n, c.Rounds)
+		cs = append(cs, c)
+	}
+	// adapters closed while calls are outstanding on them (child process: the process must survive it); the next round
+	// runs on the same proxies
+	ncl := 2
+	if tier == "thorough" {
+		ncl = 6
+	}
+	for i := 0; i < ncl; i++ {
+		n := []int{4, 16, 1, 32, 8, 2}[i%6]
+		c := c08Case{Kind: "trace", N: n, Rounds: 2, Proxies: 1 + i%2, TimeoutMs: 250 + rng.Intn(150), Filters: "plain", CloseAt: 1, Follow: true, Opts: i%2 == 1, Registry: i%2 == 1}
+		if n == 1 {
+			c.Proxies = 1
+		}
+		for k := 0; k < n; k++ {
+			c.Acts = append(c.Acts, []string{"closed", "closed", "closed", "ow", "cancel"}[rng.Intn(5)])
+		}
+		c.Acts[0] = "closed"
+		for k := 0; k < n; k++ {
+			c.Acts = append(c.Acts, []string{"reply", "dup", "none", "reply", "late"}[rng.Intn(5)])
+		}
+		for r := 0; r < c.Rounds; r++ {
+			for _, k := range rng.Perm(n) {
+				c.Order = append(c.Order, r*n+k)
+			}
+		}
+		c.Class = fmt.Sprintf("trace-close/n%d/p%d/opts%v/registry%v", n, c.Proxies, c.Opts, c.Registry)
+		cs = append(cs, c)
+	}
 	// high-contention bursts: W callers in lock step on one adapter, every batch of W replies in one write
 	nb := 3
 	if tier == "thorough" {
@@ -1875,7 +2049,7 @@ func init() {
 			ID: "C08", Require: "From TarsV Require Import Base.Hex Rpc.ReqId Conc.Pending Conc.C08Corr.", CaseType: "c08_case",
 			Mismatch: "failing_from c08_check",
 			Corr:     "C08Corr.c08_check (gen_seq = real genRequestID from a set counter; concurrent batches within the theorems' conclusions; maccepts = the recorded trace, per connection, is a good run of the product of pending-table machines with the observed outcomes, table snapshots and empty tables at the end; wrap witness = the theorem's prediction)",
-			Rule:     "genRequestID: counter set to 0/maxInt32/minInt32 +-4, 2^30, random, then 1-7 calls single-threaded (exact vs gen_seq); 2-32 threads x 4-33 calls straddling 0, maxInt32, minInt32 (non-zero, distinct, reachable window, in Coq); 4-32 threads x 20000-40000 calls (monitor: non-zero, distinct, no lost increment). Scripted raw TCP server: N in {1,2,4,8,16,32,64,128,256} concurrent callers spread over 1-2 ServantProxy objects (own adapter and connection each), 1-3 rounds on the same connections, per caller one of reply / three replies / no reply / reply after the caller left / caller's context cancelled (plain, or under a distant deadline) while the request is in flight / forged id 0 / forged unknown ids / one-way typed packet with the right id / id of a completed call / right id on another connection / one-way call (echoed by the peer under its id) / call failing in doInvoke (refused endpoint); answered callers call again at once (follow-up); dup-chain scenarios (3x8 replies per call); client-filter scenarios in child processes (pass-through pre+post filters, client filter, middleware); ids of all requests received by the server non-zero and distinct; server handling order a random permutation per round; request ids positioned to cross 0, the wrap threshold, or be negative; GOMAXPROCS 1,2,4,16 in thorough; table snapshot while the round is outstanding. Burst: 16-64 callers in lock step on one adapter, ~8000 calls, every batch of replies in one write (monitor: own id and payload). Thorough: full-cycle wrap witness (2^31 allocations). class = (kind, counter zone, threads | N, rounds, proxies, GOMAXPROCS, id zone, set of acts)",
+			Rule:     "genRequestID: counter set to 0/maxInt32/minInt32 +-4, 2^30, random, then 1-7 calls single-threaded (exact vs gen_seq); 2-32 threads x 4-33 calls straddling 0, maxInt32, minInt32 (non-zero, distinct, reachable window, in Coq); 4-32 threads x 20000-40000 calls (monitor: non-zero, distinct, no lost increment). Scripted raw TCP server: N in {1,2,4,8,16,32,64,128,256} concurrent callers spread over 1-2 ServantProxy objects (own adapter and connection each), 1-3 rounds on the same connections, per caller one of reply / three replies / no reply / reply in two pieces with a gap beyond the client read timeout whose payload embeds a poisoned frame for a waiting call / adapters closed while calls are outstanding (child process) / reply after the caller left / caller's context cancelled (plain, or under a distant deadline) while the request is in flight / forged id 0 / forged unknown ids / one-way typed packet with the right id / id of a completed call / right id on another connection / one-way call (echoed by the peer under its id) / call failing in doInvoke (refused endpoint); answered callers call again at once (follow-up); dup-chain scenarios (3x8 replies per call); client-filter scenarios in child processes (pass-through pre+post filters, client filter, middleware); ids of all requests received by the server non-zero and distinct; server handling order a random permutation per round; request ids positioned to cross 0, the wrap threshold, or be negative; GOMAXPROCS 1,2,4,16 in thorough; table snapshot while the round is outstanding. Burst: 16-64 callers in lock step on one adapter, ~8000 calls, every batch of replies in one write (monitor: own id and payload). Thorough: full-cycle wrap witness (2^31 allocations). class = (kind, counter zone, threads | N, rounds, proxies, GOMAXPROCS, id zone, set of acts)",
 			Shard:    4,
 			Workers:  1,
 			Gen:      c08Gen,
